@@ -1,13 +1,18 @@
 // Package haxmap (import path verif/ref/haxmapshim) is a linearizable stand-in
 // for github.com/alphadose/haxmap used ONLY by the concurrent part of C15:
 // every method is one atomic step on the model runtime (a scheduling point
-// followed by the whole operation) and ForEach visits a snapshot of the keys
-// element by element with a scheduling point between elements. The property is
+// followed by the whole operation) and ForEach walks the live key set in a fixed total order,
+// element by element, with a scheduling point between elements (an insertion
+// behind the cursor is visited, as in the real sorted list). The property is
 // then about the cache given a linearizable map; the real haxmap is exercised
 // by the sequential part.
 package haxmap
 
-import "verif/mc"
+import (
+	"fmt"
+
+	"verif/mc"
+)
 
 // Event is reported to Trace for every map-level step.
 type Event struct {
@@ -81,17 +86,34 @@ func (m *Map[K, V]) Len() uintptr {
 }
 
 func (m *Map[K, V]) ForEach(f func(K, V) bool) {
+	// The real map keeps its elements in a list sorted by key hash and ForEach
+	// walks that live list: an element inserted behind the cursor while the walk
+	// is under way is visited, one inserted before it is not. The stand-in walks
+	// the keys in a fixed total order (their printed form) and, at every step,
+	// goes on to the smallest key beyond the last one visited.
 	mc.Yield()
-	snap := append([]K(nil), m.keys...)
 	emit(Event{Op: "foreach-begin"})
-	for _, k := range snap {
+	cursor, started := "", false
+	for {
 		mc.Yield()
-		v, ok := m.m[k]
-		if !ok {
-			continue
+		var next K
+		nextS, found := "", false
+		for k := range m.m {
+			ks := fmt.Sprint(k)
+			if started && ks <= cursor {
+				continue
+			}
+			if !found || ks < nextS {
+				next, nextS, found = k, ks, true
+			}
 		}
-		emit(Event{Op: "visit", Key: k, Val: v})
-		if !f(k, v) {
+		if !found {
+			break
+		}
+		cursor, started = nextS, true
+		v := m.m[next]
+		emit(Event{Op: "visit", Key: next, Val: v})
+		if !f(next, v) {
 			break
 		}
 	}
